@@ -106,6 +106,15 @@ impl MechErrorKind for RangeSizeOverflowError {
   }
 }
 
+// Distance from `from` to `to` (to >= from): floats subtract, integers use abs_diff so that the
+// span of a signed kind does not overflow that kind (100<i8> - -100<i8> = 200).
+#[macro_export]
+macro_rules! range_span {
+  ($from:expr, $to:expr, f32) => { $to - $from };
+  ($from:expr, $to:expr, f64) => { $to - $from };
+  ($from:expr, $to:expr, $ty:tt) => { $to.abs_diff($from) };
+}
+
 // Number of terms of an exclusive range: a fractional span still holds one more term below the end
 // (0.5..3.2 is 0.5, 1.5, 2.5), so floats round the span up.
 #[macro_export]
